@@ -402,11 +402,11 @@ func (rc *runCtx) do(cli int, c nfsx.Cred, r *nfsx.Req, keep []string, hasKeep b
 	rc.mu.Lock()
 	defer rc.mu.Unlock()
 	rc.ops = append(rc.ops, &opRec{cli: cli, inv: inv, resp: resp, cred: c, req: r, obs: o, keep: keep, hasKeep: hasKeep})
-	if r.Name != nil && r.Proc != "MNT" {
-		rc.names[string(r.Name)] = true
+	if d, ok := rc.h2p[r.H]; ok && r.Name != nil && r.Proc != "MNT" {
+		rc.names[d+"\x00"+string(r.Name)] = true
 	}
-	if r.Name2 != nil {
-		rc.names[string(r.Name2)] = true
+	if d, ok := rc.h2p[r.H2]; ok && r.Name2 != nil {
+		rc.names[d+"\x00"+string(r.Name2)] = true
 	}
 	if o.RPC == 0 && o.Status == 0 {
 		switch r.Proc {
@@ -722,17 +722,26 @@ func execute(c cfg29, schedSeed uint64, populate func(fs *specfs.FS), setup func
 	// probe round: the same sequential requests on this server and on a fresh twin over a copy of the backend state
 	twin := newEnv(c, nil, nil, func(fs *specfs.FS) { restore(fs, res.final) })
 	defer twin.NFS.Close()
-	var names []string
-	for nm := range rc.names {
-		names = append(names, nm)
+	// per directory: every name a request used there, plus the names the directory holds now
+	names := map[string][]string{}
+	for k := range rc.names {
+		i := strings.Index(k, "\x00")
+		names[k[:i]] = append(names[k[:i]], k[i+1:])
 	}
 	for _, en := range res.final {
 		if en.Path != "/" {
-			names = append(names, en.Path[strings.LastIndex(en.Path, "/")+1:])
+			i := strings.LastIndex(en.Path, "/")
+			d := en.Path[:i]
+			if d == "" {
+				d = "/"
+			}
+			names[d] = append(names[d], en.Path[i+1:])
 		}
 	}
-	sort.Strings(names)
-	names = uniq(names)
+	for d := range names {
+		sort.Strings(names[d])
+		names[d] = uniq(names[d])
+	}
 	res.probeA, res.probeTxt = probe(e, res.final, names)
 	res.probeB, _ = probe(twin, res.final, names)
 	return res
@@ -786,7 +795,7 @@ func restore(fs *specfs.FS, dump []specfs.Entry) {
 
 // probe walks every directory of the final tree from MNT "/" and asks LOOKUP (+ GETATTR on success) for every
 // name of the universe, READDIR and READDIRPLUS for every directory.  Handles are dropped from the observations.
-func probe(e *env, final []specfs.Entry, names []string) ([]*nfsx.Obs, []string) {
+func probe(e *env, final []specfs.Entry, names map[string][]string) ([]*nfsx.Obs, []string) {
 	var out []*nfsx.Obs
 	var txt []string
 	root := nfsx.Cred{}
@@ -812,7 +821,7 @@ func probe(e *env, final []specfs.Entry, names []string) ([]*nfsx.Obs, []string)
 		if !ok {
 			dh = 999999 // no handle obtained for an existing directory: the requests below answer STALE
 		}
-		for _, nm := range names {
+		for _, nm := range names[d] {
 			o := add(&nfsx.Req{Proc: "LOOKUP", H: dh, Name: []byte(nm)}, "LOOKUP "+join(d, nm))
 			if o.RPC == 0 && o.Status == 0 && o.FH != nil {
 				hs[join(d, nm)] = *o.FH
@@ -907,10 +916,16 @@ func (res *runResult) toCase(mode int, c cfg29, kind string, idx int, tags map[s
 	var probes []string
 	if len(res.probeA) != len(res.probeB) {
 		// replies diverged so much that the walks differ: render the common prefix plus one forced difference
-		probes = append(probes, fmt.Sprintf("(%s, %s)", (&nfsx.Obs{Status: 1}).Coq(), (&nfsx.Obs{Status: 2}).Coq()))
+		probes = append(probes, fmt.Sprintf("(%s, Some %s)", (&nfsx.Obs{Status: 1}).Coq(), (&nfsx.Obs{Status: 2}).Coq()))
 	}
 	for i := 0; i < len(res.probeA) && i < len(res.probeB); i++ {
-		probes = append(probes, fmt.Sprintf("(%s, %s)", stripHandles(res.probeA[i]).Coq(), stripHandles(res.probeB[i]).Coq()))
+		// the twin's reply is written out only when its rendering differs from the server's (None = identical term)
+		a, b := stripHandles(res.probeA[i]).Coq(), stripHandles(res.probeB[i]).Coq()
+		if a == b {
+			probes = append(probes, fmt.Sprintf("(%s, None)", a))
+		} else {
+			probes = append(probes, fmt.Sprintf("(%s, Some %s)", a, b))
+		}
 		if stripHandles(res.probeA[i]).Text() != stripHandles(res.probeB[i]).Text() {
 			txt = append(txt, fmt.Sprintf("probe %s: server %s | twin %s", res.probeTxt[i], res.probeA[i].Text(), res.probeB[i].Text()))
 		}
